@@ -637,6 +637,9 @@ func gen(t *rapid.T) Plan {
 			p.Scheds = append(p.Scheds, rapid.SliceOfN(rapid.IntRange(0, 5), tot, tot).Draw(t, "sched"))
 		}
 	}
+	if rapid.IntRange(0, 3).Draw(t, "failref") == 0 {
+		p.FailRefPut = rapid.IntRange(1, 4).Draw(t, "failrefn")
+	}
 	return p
 }
 
